@@ -16,7 +16,7 @@ CONSTANTS
   Ports = {0, 1024, 5549, 5551, 5553, 65000}
   IpcNames = {"pipe"}
   Extras = {""}
-  Defects = {"assign_empty_ignored", "ipc_name_clash"}
+  Defects = {"assign_empty_ignored"}
 INIT Init
 NEXT Next
 INVARIANT TypeOK
